@@ -1,6 +1,6 @@
 CONSTANT Tier = "thorough"
 CONSTANT MaxN = 5
-CONSTANT Modes = {"G"}
+CONSTANT Modes = {"L"}
 INIT Init
 NEXT Next
 INVARIANT GeneratedWellFormed
